@@ -12,7 +12,11 @@ import (
 // keys with arbitrary interleaving, all consumption orders, Cancel(key) and
 // Stop at each step, concurrent with reads and writes).
 
-var dmxKeyFns = []string{"src", "dst", "id", "const"}
+var dmxKeyFns = []string{"src", "dst", "id", "const", "names"}
+
+var dmxShapes = []string{"", "", "", "nobody", "emptybody"}
+var dmxReadErrs = []string{"", "eof", "wrapeof", "canceled", "wrapcanceled"}
+var dmxCtxErrs = []string{"", "", "deadline", "wrapdeadline", "wrapcanceled"}
 
 // words: every action sequence of length <= n over a small alphabet (2 keys, 2 instances)
 func dmxWords(n int) []dmxScenario {
@@ -43,6 +47,44 @@ func dmxWords(n int) []dmxScenario {
 		}
 	}
 	rec(nil)
+	return out
+}
+
+// words that contain a tick of the virtual clock (the model has no timer: nothing may happen in it)
+func dmxTickWords(n int) []dmxScenario {
+	alpha := []DAct{
+		{Op: "tick", D: 100}, {Op: "deliver", K: 1}, {Op: "deliver", K: 2},
+		{Op: "read", C: 0}, {Op: "write", C: 0, K: 1},
+		{Op: "cancelkey", K: 1}, {Op: "stop"}, {Op: "setw", M: "block"}, {Op: "cancelcall", I: 0},
+	}
+	var out []dmxScenario
+	var rec func(prefix []DAct, ticks int)
+	rec = func(prefix []DAct, ticks int) {
+		if len(prefix) > 0 && ticks > 0 {
+			acts := make([]DAct, len(prefix))
+			copy(acts, prefix)
+			for i := range acts {
+				acts[i].V = int64(100 + i)
+			}
+			// a long tick at the end: a timer started by the last action fires, if there is one
+			acts = append(acts, DAct{Op: "tick", D: 60000})
+			out = append(out, dmxScenario{KeyFn: "src", Acts: acts, Tags: []string{"tick-words", fmt.Sprintf("len=%d", len(prefix))}})
+		}
+		if len(prefix) == n {
+			return
+		}
+		for _, a := range alpha {
+			t := ticks
+			if a.Op == "tick" {
+				if len(prefix) == 0 {
+					continue // a tick before anything happened says nothing
+				}
+				t++
+			}
+			rec(append(prefix, a), t)
+		}
+	}
+	rec(nil, 0)
 	return out
 }
 
@@ -144,7 +186,7 @@ func dmxRandomWalk(r *rand.Rand, n, nk int) dmxScenario {
 		switch {
 		case x < 30:
 			k := int64(1 + r.Intn(nk))
-			acts = append(acts, DAct{Op: "deliver", K: k, V: tok})
+			acts = append(acts, DAct{Op: "deliver", K: k, V: tok, S: dmxShapes[r.Intn(len(dmxShapes))]})
 			if !seen[k] {
 				seen[k] = true
 				nInst++
@@ -153,7 +195,7 @@ func dmxRandomWalk(r *rand.Rand, n, nk int) dmxScenario {
 			acts = append(acts, DAct{Op: "read", C: r.Intn(nInst + 1)})
 			nCalls++
 		case x < 70 && nInst > 0:
-			acts = append(acts, DAct{Op: "write", C: r.Intn(nInst + 1), K: int64(1 + r.Intn(nk)), V: tok})
+			acts = append(acts, DAct{Op: "write", C: r.Intn(nInst + 1), K: int64(1 + r.Intn(nk)), V: tok, S: dmxShapes[r.Intn(len(dmxShapes))]})
 			nCalls++
 		case x < 78:
 			k := int64(1 + r.Intn(nk))
@@ -162,13 +204,15 @@ func dmxRandomWalk(r *rand.Rand, n, nk int) dmxScenario {
 				delete(seen, k) // a later envelope creates a new instance
 			}
 		case x < 84 && nCalls > 0:
-			acts = append(acts, DAct{Op: "cancelcall", I: r.Intn(nCalls)})
+			acts = append(acts, DAct{Op: "cancelcall", I: r.Intn(nCalls), M: dmxCtxErrs[r.Intn(len(dmxCtxErrs))]})
 		case x < 92:
 			acts = append(acts, DAct{Op: "setw", M: []string{"ok", "fail", "block", "ok"}[r.Intn(4)]})
 		case x < 95 && len(acts) > n/2:
 			acts = append(acts, DAct{Op: "stop"})
 		case x < 97 && len(acts) > n/2:
-			acts = append(acts, DAct{Op: "failread"})
+			acts = append(acts, DAct{Op: "failread", M: dmxReadErrs[r.Intn(len(dmxReadErrs))]})
+		case x >= 97:
+			acts = append(acts, DAct{Op: "tick", D: []int{1, 50, 1000, 61000}[r.Intn(4)]})
 		}
 	}
 	return dmxScenario{KeyFn: dmxKeyFns[r.Intn(len(dmxKeyFns))], ByRef: r.Intn(2) == 0, Acts: acts,
@@ -223,6 +267,77 @@ func dmxScenarios() []dmxScenario {
 			out = append(out, base)
 			out = append(out, dmxInsertEach(base, DAct{Op: "cancelkey", K: 1}, "cancel-each-step")...)
 			out = append(out, dmxInsertEach(base, DAct{Op: "stop"}, "stop-each-step")...)
+		}
+	}
+	// 5. ticks of the virtual clock inside short words
+	tl := 3
+	if thorough() {
+		tl = 4
+	}
+	out = append(out, dmxTickWords(tl)...)
+	// 6. one key's consumer is not reading (the run loop is parked in the hand-off of its second envelope) while
+	// other keys have traffic: Cancel of either key, Stop, a write on either connection, a blocked shared
+	// transport and a tick at EVERY position. Cancel / Stop must return (o_ctl), the other key must flow again
+	// once the parked key is cancelled.
+	for _, kf := range []string{"src", "names"} {
+		base := dmxScenario{KeyFn: kf, Acts: []DAct{{Op: "deliver", K: 1, V: 201}, {Op: "deliver", K: 1, V: 202}, {Op: "deliver", K: 2, V: 203},
+			{Op: "read", C: 0}, {Op: "deliver", K: 2, V: 204}, {Op: "deliver", K: 1, V: 205}, {Op: "read", C: 1}, {Op: "read", C: 1}, {Op: "read", C: 0}},
+			Tags: []string{"parked-handoff"}}
+		out = append(out, base)
+		for _, ins := range []struct {
+			a   DAct
+			tag string
+		}{{DAct{Op: "cancelkey", K: 1}, "cancel-parked-key"}, {DAct{Op: "cancelkey", K: 2}, "cancel-other-key"}, {DAct{Op: "stop"}, "stop-each-step"},
+			{DAct{Op: "write", C: 0, K: 1, V: 290}, "write-parked-key"}, {DAct{Op: "write", C: 1, K: 2, V: 291}, "write-other-key"},
+			{DAct{Op: "tick", D: 1000}, "tick-each-step"}, {DAct{Op: "setw", M: "block"}, "wblock-each-step"}} {
+			out = append(out, dmxInsertEach(base, ins.a, ins.tag)...)
+		}
+		// Cancel of the other key AND a blocked shared write at once, around the parked hand-off
+		for _, sc := range dmxInsertEach(base, DAct{Op: "cancelkey", K: 2}, "cancel-other-key") {
+			acts := append([]DAct{{Op: "setw", M: "block"}}, sc.Acts[:3]...)
+			acts = append(acts, DAct{Op: "write", C: 0, K: 1, V: 292}, DAct{Op: "write", C: 1, K: 2, V: 293})
+			acts = append(acts, sc.Acts[3:]...)
+			acts = append(acts, DAct{Op: "setw", M: "ok"}, DAct{Op: "tick", D: 1000})
+			out = append(out, dmxScenario{KeyFn: kf, Acts: acts, Tags: []string{"parked-handoff", "wblock+cancel-other-key"}})
+		}
+	}
+	// 7. keys whose NAMES collide under concatenation / are prefixes of one another / are empty: all sequences of
+	// length <= 3 over five of them, eager and drained, with Cancel of the first key at every step
+	for l := 1; l <= 3; l++ {
+		for si, ks := range keySeqs(l, 5) {
+			for i := range ks {
+				ks[i] = []int64{1, 2, 5, 0, 8}[ks[i]-1] // "c-1" "c-11" "12" "" "c-112"
+			}
+			mode := []string{"eager", "drain"}[si%2]
+			base := dmxSeqScenario(ks, mode, perms3[si%6], "names", si%2 == 0)
+			base.Tags = append(base.Tags, "colliding-names")
+			out = append(out, base)
+			if thorough() || si%5 == 0 {
+				out = append(out, dmxInsertEach(base, DAct{Op: "cancelkey", K: ks[0]}, "cancel-each-step")...)
+			}
+		}
+	}
+	// 8. envelope shapes: no body, a body of zero bytes, the all-default envelope, on every key function
+	for _, kf := range dmxKeyFns {
+		for _, shape := range []string{"nobody", "emptybody", "zero"} {
+			wshape := shape
+			if shape == "zero" { // the all-default envelope has no identity: once per scenario
+				wshape = "nobody"
+			}
+			acts := []DAct{{Op: "deliver", K: 1, V: 301, S: shape}, {Op: "read", C: 0}, {Op: "deliver", K: 1, V: 302}, {Op: "deliver", K: 2, V: 303, S: "nobody"},
+				{Op: "read", C: 0}, {Op: "read", C: 1}, {Op: "write", C: 0, K: 1, V: 304, S: wshape}, {Op: "write", C: 1, K: 2, V: 305, S: "emptybody"}, {Op: "read", C: 1}}
+			base := dmxScenario{KeyFn: kf, Acts: acts, Tags: []string{"shapes", "shape=" + shape}}
+			out = append(out, base)
+			out = append(out, dmxInsertEach(base, DAct{Op: "cancelkey", K: 1}, "cancel-each-step")...)
+		}
+	}
+	// 9. the shared Read failing with each kind of error (plain, io.EOF, wrapped), calls ending with each kind of context error
+	for _, re := range dmxReadErrs {
+		for _, ce := range dmxCtxErrs[1:] {
+			out = append(out, dmxScenario{KeyFn: "src", Acts: []DAct{{Op: "deliver", K: 1, V: 401}, {Op: "read", C: 0}, {Op: "read", C: 0}, {Op: "write", C: 0, K: 1, V: 402},
+				{Op: "setw", M: "block"}, {Op: "write", C: 0, K: 1, V: 403}, {Op: "cancelcall", I: 1, M: ce}, {Op: "cancelcall", I: 3, M: ce},
+				{Op: "failread", M: re}, {Op: "deliver", K: 2, V: 404}, {Op: "read", C: 0}, {Op: "tick", D: 1000}, {Op: "setw", M: "ok"}, {Op: "read", C: 1}},
+				Tags: []string{"error-kinds", "readerr=" + re, "ctxerr=" + ce}})
 		}
 	}
 	// 4. seeded random walks, up to 8 keys
